@@ -321,6 +321,24 @@ func flagFalseH(c *Ctx, fn *ssa.Function, holds func(ssa.Value, bool) bool) bool
 }
 
 func mat3(c *Ctx) {
+	// the shortcut matcher: always matches, hands the vector back untouched (what `[x]` and `x...` rely on)
+	if fn := c.fnOpt("internal/matcher", "shortcut.Match"); fn != nil {
+		c.Mark(fn)
+		ok := len(ir.ReturnPoints(fn)) > 0
+		for _, r := range ir.ReturnPoints(fn) {
+			b, isC := ir.ConstBool(r.Results[0])
+			if !isC || !b || len(r.Results) != 2 {
+				ok = false
+				continue
+			}
+			if p, isP := r.Results[1].(*ssa.Parameter); !isP || !isStringSlice(p.Type()) {
+				ok = false
+			}
+		}
+		mk := len(c.Obs)
+		c.Check(ok, Q(fn)+":always", fn.Pos(), "matches every vector and returns it unchanged", "the shortcut matcher can decline or change the vector: optional and repeated parts of a spec stop being optional / repeatable")
+		c.Scope(mk, "C01")
+	}
 	// option matcher: every sub-matcher call under !RejectOptions
 	if fn := c.Fn("internal/matcher", "opt.Match"); fn != nil {
 		ok := true
